@@ -64,10 +64,21 @@ def build():
     dr = strip(lib.fn_body("drop", within=lib.impl_span(r'impl<T: VhostUserBackend> Drop for VhostUserDaemon<T>')))
     u.scan(["C16"], "drop_shuts_both_directions", "conn.shutdown(Shutdown::Both)" in dr and "conn_state.take()" in dr,
            "Drop for VhostUserDaemon shuts the connection down in BOTH directions (unblocks the daemon thread's read)")
-    sd = strip(lib.fn_body("start_daemon", within=span))
-    m = re.search(r'let result = loop \{.*?\};\s*let _ = thread_state\.conn\.shutdown\(Shutdown::Both\);\s*result', sd, re.S)
-    u.scan(["C16"], "daemon_thread_shuts_socket_on_every_exit", bool(m) and "handler.handle_request()" in sd,
-           "the daemon thread shuts the socket down (both directions) after the serving loop on every exit, then returns the loop's result: the peer observes end-of-stream whenever serving stops")
+    # the daemon thread: serving loop, then shutdown(Both), then the loop's result - wherever that code lives (closure in
+    # start_daemon or a helper it calls)
+    whole = strip(lib.src[:lib.src.index("#[cfg(test)]")] if "#[cfg(test)]" in lib.src else lib.src)
+    m = re.search(r'let (\w+) = loop \{(?:(?!\bfn\b).)*?handle_request\(\)(?:(?!\bfn\b).)*?\};\s*let _ = [\w\.]*conn\.shutdown\(Shutdown::Both\);\s*\1\b', whole, re.S)
+    serving_loops = len(re.findall(r'handle_request\(\)', whole))
+    if m:
+        u.scan(["C16"], "daemon_thread_shuts_socket_on_every_exit", True,
+               "the daemon thread shuts the socket down (both directions) after the serving loop on every exit, then returns the loop's result: the peer observes end-of-stream whenever serving stops")
+    else:
+        # the shape was not recognised: a violation only if the text shows a one-directional / missing shutdown next to the serving loop
+        region = whole[max(0, whole.find("handle_request()") - 200): whole.find("handle_request()") + 600] if serving_loops else ""
+        bad = bool(re.search(r'Shutdown::(Read|Write)\b', region)) or (serving_loops > 0 and "shutdown(" not in region)
+        u.scan(["C16"], "daemon_thread_shuts_socket_on_every_exit", False,
+               "the daemon thread's serving loop is followed by shutdown(Both) and returns the loop's result (shape not recognised%s)" % ("; a one-directional or missing shutdown follows the loop" if bad else ""),
+               on_fail=("violation" if bad else "undecided"))
     sv = strip(lib.fn_body("serve", within=span))
     def depth0_positions(text, needle):
         out, depth = [], 0
